@@ -169,9 +169,17 @@ func (sc *Scenario) Summary() map[string]any {
 	}
 }
 
-var nWeights = []struct{ n, w int }{{1, 3}, {2, 2}, {3, 3}, {4, 34}, {5, 8}, {6, 7}, {7, 25}, {8, 5}, {9, 3}, {10, 10}}
+var nWeights = []struct{ n, w int }{{1, 3}, {2, 2}, {3, 3}, {4, 34}, {5, 8}, {6, 7}, {7, 25}, {8, 5}, {9, 3}, {10, 10}, {11, 3}, {12, 3}, {13, 8}}
+
+// Deep widens the scenario space (thorough tier): up to 13 validators (F = 4) wherever the
+// quick tier goes up to 10, more heights per run, larger event caps.  It changes the meaning
+// of tape values, so replay files record it.
+var Deep bool
 
 func drawN(t *Tape, lo, hi int) int {
+	if Deep && hi >= 10 {
+		hi = 13
+	}
 	tot := 0
 	for _, x := range nWeights {
 		if x.n >= lo && x.n <= hi {
@@ -207,6 +215,9 @@ func baseScenario(t *Tape, family string, nlo, nhi int) *Scenario {
 	sc.Fault = make([]FaultKind, n)
 	sc.FlagWO = make([]bool, n)
 	sc.Heights = int(t.Range(SScen, 2, 6))
+	if Deep {
+		sc.Heights = int(t.Range(SScen, 2, 12))
+	}
 	switch t.Draw(SScen, 4) {
 	case 0:
 		sc.Start = 0
@@ -235,6 +246,10 @@ func baseScenario(t *Tape, family string, nlo, nhi int) *Scenario {
 	sc.SyncEvery = int64(sc.TPB) * pick(t, SScen, int64(1), 2, 4)
 	sc.MaxEvents = 20000
 	sc.MaxTime = int64(sc.TPB) * 1500
+	if Deep {
+		sc.MaxEvents = 60000
+		sc.MaxTime *= 2
+	}
 	return sc
 }
 
